@@ -44,6 +44,38 @@ SRC = {
     "bad": ["package a\n\nfunc f( {\n", "not go\n"],
     "rerr": ["package a\n\nfunc f() {\n\tfoo(a + b)\n}\n", "package a\n\nfunc f() {\n\tfoo(1)\n\tother()\n}\n"],
 }
+# Patches whose changes edit the imports, with files that reach every branch of the import code: the name of an
+# import is a metavariable (it stands for a name in one file and for no name in the next), and two imports go at
+# once from blocks with comments and blank lines (what is left must not depend on anything but the file).
+IMP_PATCHES = [
+    ("@@\nvar foo identifier\nvar x expression\n@@\n-import foo \"example.com/foo-go\"\n+import foo \"example.com/foo\"\n\n-foo.Old(x)\n+foo.New(x)\n",
+     ["package a\n\nimport \"example.com/foo-go\"\n\nfunc f() { foo.Old(1) }\n",
+      "package a\n\nimport client \"example.com/foo-go\"\n\nfunc f() { client.Old(2); client.Keep() }\n",
+      "package a\n\nimport (\n\t\"fmt\"\n\n\tfoo \"example.com/foo-go\"\n)\n\nfunc f() { fmt.Println(foo.Old(3)) }\n",
+      "package a\n\nimport (\n\tother \"example.com/foo-go\" // named\n\t\"os\"\n)\n\nfunc f() { other.Old(os.Args) }\n"]),
+    ("@@\nvar x expression\n@@\n-import \"example.com/aa\"\n-import \"example.com/bb\"\n\n-aa.Wrap(bb.New(x))\n+x\n", None),
+]
+
+
+def import_blocks(rng, n):
+    """n files that import aa and bb in a block of four imports laid out at random"""
+    out = []
+    for _ in range(n):
+        specs = ['"example.com/aa"', '"example.com/bb"', '"fmt"', '"os"']
+        if rng.random() < 0.5:
+            rng.shuffle(specs)
+        lines = ["package p", "", "import ("]
+        for i, sp in enumerate(specs):
+            if rng.random() < 0.4:
+                lines.append("\t// lead %d" % i)
+            lines.append("\t" + sp + (" // trailing %d" % i if rng.random() < 0.3 else ""))
+            if rng.random() < 0.3 and i < 3:
+                lines.append("")
+        lines += [")", "", "func f() {", "\tfmt.Println(aa.Wrap(bb.New(os.Args)))", "}", ""]
+        out.append("\n".join(lines))
+    return out
+
+
 SOLO_CLASS = {"bad": "error:parse", "rerr": "error:replace", "none": "input"}
 
 CFG_MC = """SPECIFICATION Spec
@@ -233,6 +265,13 @@ def library_half(ctx, quick, st):
     for i in range(3 if quick else 10):
         ks = [ctx.rng.choice(list(SRC)) for _ in range(ctx.rng.randint(2, 5))]
         stress.append(dict(id="par%d" % i, patch=PATCH, srcs=[ctx.rng.choice(SRC[k]) for k in ks], goroutines=8 if quick else 16, rounds=25 if quick else 100))
+    for i in range(3 if quick else 8):
+        for j, (ptxt, srcs) in enumerate(IMP_PATCHES):
+            srcs = list(srcs) if srcs else import_blocks(ctx.rng, 16)
+            ctx.rng.shuffle(srcs)
+            stress.append(dict(id="imp%d-%d" % (i, j), patch=ptxt, srcs=srcs, goroutines=1, rounds=len(srcs) * (16 if quick else 40)))
+            if i % 2 == 1:
+                stress.append(dict(id="imppar%d-%d" % (i, j), patch=ptxt, srcs=srcs, goroutines=4, rounds=len(srcs) * 6))
     vr = build_race(ctx)
     inp, outp = ctx.path("sched", "stress.in.ndjson"), ctx.path("sched", "stress.out.ndjson")
     write_ndjson(inp, stress)
